@@ -4,7 +4,9 @@
 //! Requests (numbers are `i<int>` for small integers or the decimal u64 of the f64 bit pattern):
 //!   gauss <kind> <h> <w> a… <nb> b… <tol>
 //!   gaussjag <kind> <rows> <len₀> a… <len₁> a… … <nb> b… <tol>      (nested Vec, any row lengths)
-//!   back|forward <h> <w> a… <size> <nb> b… <ns>                      (ns = length of the solution slice)
+//!   back|forward <h> <w> a… <size> <nb> b… <ns>                      (ns = length of the solution slice;
+//!                                                                     the slice is handed over full of NaN, and the call is
+//!                                                                     repeated on a used buffer and on one full of -inf)
 //! Observations: `ok n f<bits>…` | `err nonsquare|numargs|singular|invalid|other` | `panic`.
 //!
 //! The harness's own verdict is the clause "identically for every accepted container type of the
@@ -85,6 +87,9 @@ fn fits_i32(x: f64) -> bool {
 fn fits_f32(x: f64) -> bool {
     ((x as f32) as f64).to_bits() == x.to_bits()
 }
+fn fits_u8(x: f64) -> bool {
+    (0.0..=255.0).contains(&x) && ((x as u8) as f64).to_bits() == x.to_bits()
+}
 
 fn show(r: Option<Result<Vec<f64>, SolverError>>) -> String {
     match r {
@@ -98,7 +103,7 @@ fn show(r: Option<Result<Vec<f64>, SolverError>>) -> String {
     }
 }
 
-pub const KINDS: [&str; 7] = ["vf", "rvf", "raf", "rvi", "rai", "rvs", "ras"];
+pub const KINDS: [&str; 9] = ["vf", "rvf", "raf", "rvi", "rai", "rvs", "ras", "rvu", "rau"];
 
 /// Call the real solver through the named container kind; `None` = this kind cannot hold the numbers.
 /// The right-hand side travels as `&[i32]` / `&[f32]` with the integer / single-precision kinds
@@ -121,11 +126,31 @@ fn solve(kind: &str, g: &Grid, b: &[f64], tol: f64) -> Option<String> {
                 return None;
             }
         }
+        'u' => {
+            if !g.v.iter().all(|x| fits_u8(*x)) {
+                return None;
+            }
+        }
         _ => panic!("kind"),
     }
     let bi: Option<Vec<i32>> = if b.iter().all(|x| fits_i32(*x)) { Some(b.iter().map(|x| *x as i32).collect()) } else { None };
     let bs: Option<Vec<f32>> = if b.iter().all(|x| fits_f32(*x)) { Some(b.iter().map(|x| *x as f32).collect()) } else { None };
+    let bu: Option<Vec<u8>> = if b.iter().all(|x| fits_u8(*x)) { Some(b.iter().map(|x| *x as u8).collect()) } else { None };
     let r = match kind {
+        "rvu" => {
+            let m = g.nested(|x| x as u8);
+            match &bu {
+                Some(bu) => catch(|| gaussian_elimination(&m, bu, tol)),
+                None => catch(|| gaussian_elimination(&m, b, tol)),
+            }
+        }
+        "rau" => {
+            let m = g.arr(0u8, |x| x as u8);
+            match &bu {
+                Some(bu) => catch(|| gaussian_elimination(&m, bu, tol)),
+                None => catch(|| gaussian_elimination(&m, b, tol)),
+            }
+        }
         "vf" => {
             let m = g.nested(|x| x);
             catch(move || gaussian_elimination(m, b, tol))
@@ -217,20 +242,67 @@ pub fn run(line: &str) -> Obs {
             let ns = t.usize();
             let a = g.arr(0.0f64, |x| x);
             let is_back = cmd == "back";
-            let r = catch(move || {
+            let call = |rhs: &[f64], sol: &mut [f64]| {
+                if is_back {
+                    back_substitution(&a, size, rhs, sol);
+                } else {
+                    forward_substitution(&a, size, rhs, sol);
+                }
+            };
+            let r = catch(|| {
                 // pre-filled with NaN: the routines must write every entry they are responsible for
                 let mut sol = vec![f64::NAN; ns];
-                if is_back {
-                    back_substitution(&a, size, &b, &mut sol);
-                } else {
-                    forward_substitution(&a, size, &b, &mut sol);
-                }
+                call(&b, &mut sol);
                 sol
             });
-            Obs::plain(match r {
-                None => "panic".into(),
-                Some(s) => format!("ok {}", fmt_vec_f(&s)),
-            })
+            // the same call on a buffer that an earlier call (another right-hand side) has used, and on a
+            // buffer full of infinities: the answer must not depend on what the buffer held
+            let mut verdict = Ok(());
+            if let Some(fresh) = &r {
+                const MARK: f64 = 7.5;
+                let b2: Vec<f64> = b.iter().rev().map(|x| x * 3.0 + 1.0).collect();
+                let reused = catch(|| {
+                    let mut sol = vec![MARK; ns];
+                    call(&b2, &mut sol);
+                    call(&b, &mut sol);
+                    sol
+                });
+                let inf = catch(|| {
+                    let mut sol = vec![f64::NEG_INFINITY; ns];
+                    call(&b, &mut sol);
+                    sol
+                });
+                for (what, other, mark) in [("a reused buffer", &reused, MARK), ("a buffer pre-filled with -inf", &inf, f64::NEG_INFINITY)] {
+                    match other {
+                        None => {
+                            verdict = Err(format!("the call panicked on {what} although it returned on a fresh one"));
+                        }
+                        Some(o) => {
+                            let _ = mark;
+                            for k in 0..size.min(ns) {
+                                let want = fresh[k];
+                                if o[k].to_bits() != want.to_bits() && !(o[k].is_nan() && want.is_nan()) {
+                                    verdict = Err(format!(
+                                        "component {k} is {} on {what} but {} on a fresh NaN-filled one: the result depends on the previous contents of the output slice",
+                                        o[k], want
+                                    ));
+                                    break;
+                                }
+                            }
+                        }
+                    }
+                    if verdict.is_err() {
+                        break;
+                    }
+                }
+            }
+            Obs::with(
+                match r {
+                    None => "panic".into(),
+                    Some(s) => format!("ok {}", fmt_vec_f(&s)),
+                },
+                verdict,
+            )
         }
         _ => panic!("unknown C08 request {cmd}"),
     }
@@ -259,6 +331,9 @@ impl<'a> Gen<'a> {
         }
         if singles {
             kinds.extend(["rvs", "ras"]);
+        }
+        if g.v.iter().all(|x| fits_u8(*x)) {
+            kinds.extend(["rvu", "rau"]);
         }
         if g.h == 0 && g.w > 0 {
             kinds.retain(|k| !k.contains('v'));
@@ -495,5 +570,469 @@ pub fn generate(seed: u64, thorough: bool, emit: &mut dyn FnMut(String)) {
         let ns = if gn.rng.chance(3, 4) { size } else { gn.rng.range(0, 5) as usize };
         let b = small_rhs(&mut gn.rng, nb);
         (gn.emit)(format!("{} {} {} {} {}", if back { "back" } else { "forward" }, Grid { h, w, v }.req(), size, req_vec(&b), ns));
+    }
+    harden(&mut gn, thorough);
+}
+
+// ---------------------------------------------------------------- families added after the seeded-change rounds
+
+fn sign(rng: &mut Rng) -> f64 {
+    if rng.chance(1, 2) { -1.0 } else { 1.0 }
+}
+
+fn dense(rng: &mut Rng, n: usize) -> Vec<f64> {
+    (0..n * n).map(|_| rng.uniform(-1.0, 1.0)).collect()
+}
+
+/// strictly diagonally dominant rows (factor 2)
+fn dominant(rng: &mut Rng, n: usize) -> Vec<f64> {
+    let mut v = dense(rng, n);
+    for i in 0..n {
+        let off: f64 = (0..n).filter(|j| *j != i).map(|j| v[i * n + j].abs()).sum();
+        v[i * n + i] = (2.0 * off + rng.uniform(0.25, 1.0)) * sign(rng);
+    }
+    v
+}
+
+fn emit_subst(gn: &mut Gen, back: bool, g: &Grid, size: usize, b: &[f64], ns: usize) {
+    (gn.emit)(format!("{} {} {} {} {}", if back { "back" } else { "forward" }, g.req(), size, req_vec(b), ns));
+}
+
+fn harden(gn: &mut Gen, thorough: bool) {
+    let reps = if thorough { 10 } else { 1 };
+
+    // ---- RARE PATHS: nested vectors of every row-length tuple 0..4 for 2..4 rows, owned and borrowed (a
+    // conversion that only compares the total with rows x len(first row), or only the last row, re-cuts these)
+    for r in 2..=4usize {
+        let mut lens = vec![0usize; r];
+        let mut k = 0usize;
+        loop {
+            let mut s = format!("gaussjag {} {}", if k % 2 == 0 { "vf" } else { "rvf" }, r);
+            k += 1;
+            for (i, l) in lens.iter().enumerate() {
+                let row: Vec<f64> = (0..*l).map(|c| if c == i { 4.0 } else { ((i + 2 * c) % 3) as f64 - 1.0 }).collect();
+                s.push(' ');
+                s.push_str(&req_vec(&row));
+            }
+            let nb = if k % 5 == 0 { lens[0] } else { r };
+            let b: Vec<f64> = (0..nb).map(|k| k as f64 + 1.0).collect();
+            (gn.emit)(format!("{s} {} {}", req_vec(&b), show_num(1e-12)));
+            // next tuple
+            let mut i = 0;
+            while i < r {
+                lens[i] += 1;
+                if lens[i] <= 4 {
+                    break;
+                }
+                lens[i] = 0;
+                i += 1;
+            }
+            if i == r {
+                break;
+            }
+        }
+    }
+    // unsigned bytes (the `rvu`/`rau` kinds rotate in whenever every entry is an integer in 0..=255)
+    for _ in 0..150 * reps {
+        let n = gn.rng.range(1, 6) as usize;
+        let v: Vec<f64> = (0..n * n).map(|_| if gn.rng.chance(1, 3) { gn.rng.range(0, 255) } else { gn.rng.range(0, 3) } as f64).collect();
+        let b: Vec<f64> = (0..n).map(|_| if gn.rng.chance(1, 4) { gn.rng.uniform(-4.0, 4.0) } else { gn.rng.range(0, 9) as f64 }).collect();
+        let tol = gn.tol();
+        gn.gauss(&Grid { h: n, w: n, v }, &b, tol);
+    }
+
+    // ---- SIZE: every order 11..=40 once (blocked / unrolled loops, fixed-size scratch arrays), 48 and 64
+    for n in (11..=40usize).chain([48, 64]) {
+        if n > 40 && !thorough {
+            continue;
+        }
+        let v = if n % 3 == 0 { dominant(&mut gn.rng, n) } else { dense(&mut gn.rng, n) };
+        let mut g = Grid { h: n, w: n, v };
+        let mut b = gn.rhs(n);
+        gn.scaled_rows(&mut g, &mut b, 30);
+        gn.gauss(&g, &b, 1e-12);
+        // a singular one of the same order (repeated row, scaled)
+        if n % 4 == 0 {
+            let mut v = dense(&mut gn.rng, n);
+            let (i, j) = (n / 3, n - 1);
+            for c in 0..n {
+                v[i * n + c] = 0.25 * v[j * n + c];
+            }
+            let mut g = Grid { h: n, w: n, v };
+            let mut b = gn.rhs(n);
+            gn.scaled_rows(&mut g, &mut b, 30);
+            gn.gauss(&g, &b, 1e-9);
+        }
+        // triangular solves of the same order
+        for back in [true, false] {
+            let mut v = vec![0.0; n * n];
+            for i in 0..n {
+                for j in 0..n {
+                    let in_tri = if back { j >= i } else { j <= i };
+                    v[i * n + j] = if i == j { gn.rng.uniform(0.5, 2.0) * sign(&mut gn.rng) } else if in_tri { gn.rng.uniform(-1.0, 1.0) / n as f64 } else { f64::NAN };
+                }
+            }
+            let b = gn.rhs(n);
+            emit_subst(gn, back, &Grid { h: n, w: n, v }, n, &b, n);
+        }
+    }
+
+    // larger non-square shapes and right-hand sides one too short / too long at the orders 10 and 40
+    for (h, w) in [(10usize, 9usize), (9, 10), (1, 10), (10, 1), (7, 3), (17, 16), (40, 39), (39, 40)] {
+        let v: Vec<f64> = (0..h * w).map(|_| gn.rng.uniform(-1.0, 1.0)).collect();
+        for nb in [h, w] {
+            let b = gn.rhs(nb);
+            gn.gauss(&Grid { h, w, v: v.clone() }, &b, 1e-12);
+        }
+    }
+    for n in [10usize, 40] {
+        let v = dominant(&mut gn.rng, n);
+        for nb in [n - 1, n + 1, 0, 2 * n] {
+            let b = gn.rhs(nb);
+            gn.gauss(&Grid { h: n, w: n, v: v.clone() }, &b, 1e-12);
+        }
+    }
+
+    // ---- SCALE
+    for k in 0..700 * reps {
+        let n = gn.rng.range(1, 10) as usize;
+        let mut v = if k % 3 == 0 { dominant(&mut gn.rng, n) } else { dense(&mut gn.rng, n) };
+        let mut b = gn.rhs(n);
+        match k % 7 {
+            // rows scaled by 2^-70..2^70 and by 2^-200..2^200 (the right-hand side with them)
+            0 | 1 => {
+                let mut g = Grid { h: n, w: n, v };
+                gn.scaled_rows(&mut g, &mut b, if k % 7 == 0 { 70 } else { 200 });
+                v = g.v;
+            }
+            // the whole system at one magnitude 2^e, e = -250..250, the right-hand side at another
+            2 => {
+                let e = gn.rng.range(-250, 250);
+                let f = (e + gn.rng.range(-60, 60)).clamp(-300, 300);
+                v.iter_mut().for_each(|x| *x *= pow2(e));
+                b.iter_mut().for_each(|x| *x *= pow2(f));
+            }
+            // columns scaled (the unknowns differ by up to 2^60), rows scaled on top
+            3 => {
+                let emax = *gn.rng.pick(&[10, 30]);
+                for j in 0..n {
+                    let s = pow2(gn.rng.range(-emax, emax));
+                    for i in 0..n {
+                        v[i * n + j] *= s;
+                    }
+                }
+                let mut g = Grid { h: n, w: n, v };
+                if gn.rng.chance(1, 2) {
+                    gn.scaled_rows(&mut g, &mut b, 30);
+                }
+                v = g.v;
+            }
+            // a right-hand side of tiny / huge / mixed magnitude against a matrix of order 1
+            4 => {
+                let style = gn.rng.below(3);
+                for x in b.iter_mut() {
+                    let e = match style {
+                        0 => -gn.rng.range(40, 200),
+                        1 => gn.rng.range(40, 200),
+                        _ => gn.rng.range(-60, 60),
+                    };
+                    *x *= pow2(e);
+                }
+            }
+            // one tiny row, one huge row, the rest of order 1; or one tiny / huge column
+            5 => {
+                let i = gn.rng.below(n as u64) as usize;
+                let j = gn.rng.below(n as u64) as usize;
+                let e = gn.rng.range(40, 120) * if gn.rng.chance(1, 2) { -1 } else { 1 };
+                if gn.rng.chance(1, 2) {
+                    for c in 0..n {
+                        v[i * n + c] *= pow2(e);
+                    }
+                    b[i] *= pow2(e);
+                    if i != j {
+                        for c in 0..n {
+                            v[j * n + c] *= pow2(-e);
+                        }
+                        b[j] *= pow2(-e);
+                    }
+                } else {
+                    for r in 0..n {
+                        v[r * n + j] *= pow2(e);
+                    }
+                }
+            }
+            // single entries far below / above the rest (2^-60 .. 2^-20 and 2^20): an absolute "is it zero?" test
+            _ => {
+                for x in v.iter_mut() {
+                    if gn.rng.chance(1, 4) {
+                        *x *= pow2(-gn.rng.range(20, 60));
+                    }
+                }
+            }
+        }
+        let tol = if gn.rng.chance(1, 8) { *gn.rng.pick(&[1e-6, 1e-3]) } else { gn.tol() };
+        gn.gauss(&Grid { h: n, w: n, v }, &b, tol);
+    }
+    // graded columns: below the diagonal a column holds 10^-t (t = 1..17) of its head, i.e. the matrix is already
+    // (nearly) reduced; exact zeros below the diagonal in some columns
+    for k in 0..170 * reps {
+        let n = gn.rng.range(2, 10) as usize;
+        let t = (k % 17 + 1) as i32;
+        let mut v = dense(&mut gn.rng, n);
+        for j in 0..n {
+            let mode = gn.rng.below(3);
+            for i in j + 1..n {
+                match mode {
+                    0 => v[i * n + j] *= 10f64.powi(-t),
+                    1 => v[i * n + j] = 0.0,
+                    _ => {}
+                }
+            }
+            v[j * n + j] = gn.rng.uniform(0.5, 1.0) * sign(&mut gn.rng);
+        }
+        let mut g = Grid { h: n, w: n, v };
+        let mut b = gn.rhs(n);
+        if k % 2 == 0 {
+            // shuffle the rows: the pivot search has to find the heads again
+            for i in (1..n).rev() {
+                let j = gn.rng.below(i as u64 + 1) as usize;
+                for c in 0..n {
+                    g.v.swap(i * n + c, j * n + c);
+                }
+                b.swap(i, j);
+            }
+        }
+        if k % 3 == 0 {
+            gn.scaled_rows(&mut g, &mut b, 30);
+        }
+        let tol = gn.tol();
+        gn.gauss(&g, &b, tol);
+    }
+    // the last scaled pivot at every distance 10^-1 .. 10^-17 from 0: A = L0 U0 in small integers with
+    // U0[n-1][n-1] = d (accepted or refused according to the tolerance; correspondence decides the boundary,
+    // the oracle the residual of whatever is returned)
+    for k in 0..170 * reps {
+        let n = gn.rng.range(2, 6) as usize;
+        let d = 10f64.powi(-((k % 17) as i32 + 1)) * if k % 2 == 0 { 1.0 } else { -1.0 };
+        let mut l0 = vec![0.0; n * n];
+        let mut u0 = vec![0.0; n * n];
+        for i in 0..n {
+            for j in 0..n {
+                if i == j {
+                    l0[i * n + j] = 1.0;
+                    u0[i * n + j] = if i == n - 1 { d } else { *gn.rng.pick(&[-2.0, -1.0, 1.0, 2.0]) };
+                } else if i > j {
+                    l0[i * n + j] = gn.rng.range(-1, 1) as f64;
+                } else {
+                    u0[i * n + j] = gn.rng.range(-2, 2) as f64;
+                }
+            }
+        }
+        let mut v = vec![0.0; n * n];
+        for i in 0..n {
+            for j in 0..n {
+                v[i * n + j] = (0..n).map(|t| l0[i * n + t] * u0[t * n + j]).sum();
+            }
+        }
+        let b = small_rhs(&mut gn.rng, n);
+        let tol = *gn.rng.pick(&[1e-12, 1e-9, 1e-6, 1e-3]);
+        gn.gauss(&Grid { h: n, w: n, v }, &b, tol);
+    }
+    // a scaled pivot exactly equal to a dyadic tolerance (the test is `<`): [[2,1],[1,1/2+t]] has second scaled
+    // pivot t; and one ulp on either side
+    for e in [-10, -20, -30, -39] {
+        let t = pow2(e);
+        for tt in [t, t * (1.0 + f64::EPSILON), t * (1.0 - f64::EPSILON / 2.0)] {
+            gn.gauss(&Grid { h: 2, w: 2, v: vec![2.0, 1.0, 1.0, 0.5 + t] }, &[1.0, 1.0], tt);
+            gn.gauss(&Grid { h: 3, w: 3, v: vec![4.0, 0.0, 0.0, 0.0, 2.0, 1.0, 0.0, 1.0, 0.5 + t] }, &[1.0, 1.0, -1.0], tt);
+        }
+    }
+    // subnormal and near-overflow systems (the oracle's rounding model does not apply: correspondence only)
+    for k in 0..40 * reps {
+        let n = gn.rng.range(1, 5) as usize;
+        let e = if k % 2 == 0 { -gn.rng.range(1000, 1070) } else { gn.rng.range(960, 1020) };
+        let v: Vec<f64> = dominant(&mut gn.rng, n).iter().map(|x| x * 0.125 * pow2(e)).collect();
+        let b: Vec<f64> = (0..n).map(|_| gn.rng.uniform(-1.0, 1.0) * pow2(if k % 4 < 2 { e } else { 0 })).collect();
+        let tol = gn.tol();
+        gn.gauss(&Grid { h: n, w: n, v }, &b, tol);
+    }
+
+    // ---- ZEROS / SIGNS / TIES
+    for k in 0..400 * reps {
+        let n = gn.rng.range(1, 9) as usize;
+        let mut v = dense(&mut gn.rng, n);
+        let mut b = gn.rhs(n);
+        match k % 10 {
+            // every entry negative
+            0 => v.iter_mut().for_each(|x| *x = -x.abs() - 0.01),
+            // the entry of largest magnitude of every row is negative, the others are small and positive
+            1 => {
+                for i in 0..n {
+                    let j = gn.rng.below(n as u64) as usize;
+                    for c in 0..n {
+                        v[i * n + c] = if c == j { -gn.rng.uniform(2.0, 4.0) } else { gn.rng.uniform(0.0, 1.0) };
+                    }
+                }
+            }
+            // the entry of largest magnitude of every column is negative
+            2 => {
+                for j in 0..n {
+                    let i = gn.rng.below(n as u64) as usize;
+                    for r in 0..n {
+                        v[r * n + j] = if r == i { -gn.rng.uniform(2.0, 4.0) } else { gn.rng.uniform(0.0, 1.0) };
+                    }
+                }
+            }
+            // upper / lower triangular / diagonal input (columns already reduced), rows possibly shuffled below
+            3 => (0..n * n).for_each(|t| if t / n > t % n { v[t] = 0.0 }),
+            4 => (0..n * n).for_each(|t| if t / n < t % n { v[t] = 0.0 }),
+            5 => (0..n * n).for_each(|t| if t / n != t % n { v[t] = if gn.rng.chance(1, 2) { 0.0 } else { -0.0 } }),
+            // first column zero except one row; first row zero except one column
+            6 => {
+                let i = gn.rng.below(n as u64) as usize;
+                for r in 0..n {
+                    if r != i {
+                        v[r * n] = 0.0;
+                    }
+                }
+            }
+            // a scaled permutation matrix with signed zeros elsewhere
+            7 => {
+                let mut p: Vec<usize> = (0..n).collect();
+                for i in (1..n).rev() {
+                    let j = gn.rng.below(i as u64 + 1) as usize;
+                    p.swap(i, j);
+                }
+                for i in 0..n {
+                    for j in 0..n {
+                        v[i * n + j] = if p[i] == j { gn.rng.uniform(0.5, 2.0) * sign(&mut gn.rng) } else if (i + j) % 2 == 0 { 0.0 } else { -0.0 };
+                    }
+                }
+            }
+            // dense, but the right-hand side has leading / trailing / signed zeros or is a unit vector
+            8 => {
+                let z = gn.rng.below(n as u64 + 1) as usize;
+                for (i, x) in b.iter_mut().enumerate() {
+                    if i < z {
+                        *x = if i % 2 == 0 { 0.0 } else { -0.0 };
+                    }
+                }
+            }
+            _ => {
+                let z = gn.rng.below(n as u64) as usize;
+                for (i, x) in b.iter_mut().enumerate() {
+                    *x = if i == z { sign(&mut gn.rng) } else { 0.0 };
+                }
+            }
+        }
+        let mut g = Grid { h: n, w: n, v };
+        if (3..=5).contains(&(k % 10)) && gn.rng.chance(1, 2) {
+            for i in (1..n).rev() {
+                let j = gn.rng.below(i as u64 + 1) as usize;
+                for c in 0..n {
+                    g.v.swap(i * n + c, j * n + c);
+                }
+                b.swap(i, j);
+            }
+        }
+        if gn.rng.chance(1, 3) {
+            gn.scaled_rows(&mut g, &mut b, 30);
+        }
+        let tol = gn.tol();
+        gn.gauss(&g, &b, tol);
+    }
+    // near ties in the pivot column: scaled ratios that differ by 10^-1 .. 10^-17 (and exactly equal after rounding)
+    for k in 0..170 * reps {
+        let n = gn.rng.range(2, 6) as usize;
+        let d = 10f64.powi(-((k % 17) as i32 + 1));
+        let mut v = dense(&mut gn.rng, n);
+        for i in 0..n {
+            // every row has maximum 1 (in a column other than 0 when n > 1) and first entry 1/2 (1 +- d)
+            let j = 1 + gn.rng.below(n as u64 - 1) as usize;
+            for c in 0..n {
+                v[i * n + c] *= 0.9;
+            }
+            v[i * n + j] = sign(&mut gn.rng);
+            v[i * n] = 0.5 * (1.0 + d * gn.rng.range(-1, 1) as f64) * sign(&mut gn.rng);
+        }
+        let mut g = Grid { h: n, w: n, v };
+        let mut b = gn.rhs(n);
+        if k % 2 == 0 {
+            gn.scaled_rows(&mut g, &mut b, 30);
+        }
+        let tol = gn.tol();
+        gn.gauss(&g, &b, tol);
+    }
+
+    // ---- NaN / infinities in the input, in the right-hand side, as tolerance (correspondence only)
+    for k in 0..120 * reps {
+        let n = gn.rng.range(1, 4) as usize;
+        let mut v = dense(&mut gn.rng, n);
+        let mut b = gn.rhs(n);
+        let bad = *gn.rng.pick(&[f64::NAN, f64::INFINITY, f64::NEG_INFINITY, 1e308, -1e308, 1e-320]);
+        let mut tol = gn.tol();
+        match k % 4 {
+            0 | 1 => {
+                let t = gn.rng.below((n * n) as u64) as usize;
+                v[t] = bad;
+            }
+            2 => {
+                let t = gn.rng.below(n as u64) as usize;
+                b[t] = bad;
+            }
+            _ => tol = if bad.abs() == 1e308 || bad == 1e-320 { f64::NAN } else { bad },
+        }
+        gn.gauss(&Grid { h: n, w: n, v }, &b, tol);
+    }
+
+    // ---- triangular substitution: wide magnitudes, NaN / inf in the triangle that must not be read, zeros
+    for k in 0..600 * reps {
+        let back = k % 2 == 0;
+        let n = gn.rng.range(1, 10) as usize;
+        let garbage = [f64::NAN, f64::INFINITY, 0.0, -0.0, 1e300][k / 2 % 5];
+        let emax = [0i64, 30, 70, 200][k / 10 % 4];
+        let ge = if k % 7 == 0 { gn.rng.range(-250, 250) } else { 0 };
+        let mut v = vec![0.0; n * n];
+        let zero_style = gn.rng.below(4);
+        for i in 0..n {
+            let s = pow2(gn.rng.range(-emax, emax) + ge);
+            for j in 0..n {
+                let in_tri = if back { j >= i } else { j <= i };
+                v[i * n + j] = if i == j {
+                    gn.rng.uniform(0.5, 2.0) * sign(&mut gn.rng) * s
+                } else if in_tri {
+                    (match zero_style {
+                        0 if gn.rng.chance(1, 2) => 0.0,
+                        1 => -gn.rng.uniform(0.0, 1.0),
+                        2 if gn.rng.chance(1, 3) => gn.rng.uniform(-1.0, 1.0) * pow2(-gn.rng.range(20, 60)),
+                        _ => gn.rng.uniform(-1.0, 1.0),
+                    }) * s
+                } else {
+                    garbage
+                };
+            }
+        }
+        let mut b = gn.rhs(n);
+        match k % 5 {
+            // leading zeros, trailing zeros, a unit vector
+            0 => {
+                let z = gn.rng.below(n as u64 + 1) as usize;
+                b.iter_mut().take(z).for_each(|x| *x = 0.0);
+            }
+            1 => {
+                let z = gn.rng.below(n as u64 + 1) as usize;
+                b.iter_mut().skip(n - z).for_each(|x| *x = -0.0);
+            }
+            2 => {
+                let z = gn.rng.below(n as u64) as usize;
+                b.iter_mut().enumerate().for_each(|(i, x)| *x = if i == z { 1.0 } else { 0.0 });
+            }
+            3 => b.iter_mut().for_each(|x| *x *= pow2(ge + gn.rng.range(-40, 40))),
+            _ => {}
+        }
+        // leading sub-systems and longer slices
+        let size = if gn.rng.chance(1, 5) { gn.rng.range(1, n as i64) as usize } else { n };
+        let ns = if gn.rng.chance(1, 5) { size + gn.rng.below(3) as usize } else { size };
+        emit_subst(gn, back, &Grid { h: n, w: n, v }, size, &b, ns);
     }
 }
